@@ -31,6 +31,8 @@ fn probe(args: &[String]) {
         if let Some(rest) = piece.strip_prefix(";;module ") {
             let (name, text) = rest.split_once('\n').unwrap();
             steps.push(Step::Module { name: name.trim().to_string(), src: text.to_string() });
+        } else if let Some(rest) = piece.strip_prefix(";;path\n") {
+            steps.push(Step::EvalPath { src: rest.to_string(), path: "/dev/null".to_string() });
         } else if let Some(rest) = piece.strip_prefix(";;interrupt ") {
             let (n, text) = rest.split_once('\n').unwrap();
             steps.push(Step::EvalInterrupt { src: text.to_string(), after_steps: n.trim().parse().unwrap() });
